@@ -64,6 +64,14 @@ class Wiring:
                 raise AnalysisError(f'{top} no longer derives from {need}')
         self.stateful = py.cls('StatefulInterpreter')
         self.basic = py.cls('BasicInterpreter')
+        # methods installed on an interpreter class at import time in a way that was not materialised (pyfacts): the rules enumerate
+        # the methods of these classes, so nothing can be decided about them
+        interp = {c.name for m in py.modules.values() for c in m.classes.values()
+                  if c.name.endswith('Interpreter') or any(x.name == 'Interpreter' for x in py.mro(c))}
+        for mname, cname, call in getattr(py, 'dynamic_installs', []):
+            if cname in interp:
+                raise AnalysisError(f'{mname}: `{ast.unparse(call)[:70]}` installs an attribute on interpreter class {cname} at import '
+                                    f'time in a way the analysis does not model; its methods cannot be enumerated')
 
     # ------------------------------------------------------------------
     def levels(self, meth: str):
@@ -85,6 +93,11 @@ class Wiring:
             args = sup[0][1]
             want = tuple(('param', p) for p in mf.params)
             kw = sup[0][2]
+            node = getattr(mf, 'node', None)
+            if node is not None and not mf.params and node.args.vararg is not None and node.args.kwarg is not None \
+                    and args in ((('star', ('param', node.args.vararg.arg)),), (('star', ('param', '*' + node.args.vararg.arg)),)) \
+                    and tuple(kw) in (((None, ('param', node.args.kwarg.arg)),), ((None, ('param', '**' + node.args.kwarg.arg)),)):
+                continue                                # def m(self, *args, **kwargs): super().m(*args, **kwargs) - everything is forwarded
             if kw:
                 got = list(args) + [None] * (len(want) - len(args))
                 for k, v in kw:
